@@ -24,6 +24,50 @@ def _assign(n, patt):
     return r is not None and isinstance(r, ast.Assign) and pat.match(patt, r) is not None
 
 
+def w4(ctx: Ctx, rep: Report, rid: str = "C14.W4"):
+    p = ctx.prog
+    rep.rule(rid, "no information about an object never makes it EXISTS: unconditionally_get_no_info stores only TRASHED / MISSING, ends with a "
+             "LIKELY_TRASHED entry tombstoned (TRASHED) for every provider style, and unconditionally_get_latest returns right after it", expect_min=3)
+    ni = p.func("SyncState.unconditionally_get_no_info")
+    ent, side = ni.params()[1:3]
+    vals = set()
+    for n in ctx.own_nodes(ni):
+        if isinstance(n, ast.Assign) and pat.match("%s[%s].exists" % (ent, side), n.targets[0]) is not None:
+            vals |= {x.id for x in ast.walk(n.value) if isinstance(x, ast.Name) and x.id.isupper()}
+    rep.check(rid, "no_info|values", ni, vals and vals <= {"TRASHED", "MISSING"}, "stores %s" % sorted(vals), "the no-information arm can store %s" % sorted(vals - {"TRASHED", "MISSING"}))
+    gn = ctx.cfg(ni)
+    lt = [n for n in gn.nodes if n.kind == "test" and pat.match("%s[%s].exists == LIKELY_TRASHED" % (ent, side), n.ast) is not None]
+    ok = bool(lt)
+    if ok:
+        starts = [b for t in lt for (b, l) in gn.succ[t.id] if l == "T"]
+        follow_if = [n for n in gn.nodes if n.kind == "test" and n not in lt]
+        first_after = None
+        pth = gn.reach(starts, lambda n: n in follow_if or n is gn.exit, avoid=lambda n: _assign(n, "%s[%s].exists = TRASHED" % (ent, side)), follow=NORMAL, include_src=True)
+        # tests inside the LIKELY_TRASHED arm itself (the oid_is_path log branch) are allowed to be crossed
+        inner = {id(x) for t in lt for x in ast.walk(t.ast)}
+        arm_tests = [n for n in follow_if if any(isinstance(i, ast.If) and i.test is t.ast and any(x is n.ast for b in i.body for x in ast.walk(b)) for t in lt for i in ctx.own_nodes(ni) if isinstance(i, ast.If))]
+        pth = gn.reach(starts, lambda n: (n in follow_if and n not in arm_tests) or n is gn.exit, avoid=lambda n: _assign(n, "%s[%s].exists = TRASHED" % (ent, side)), follow=NORMAL, include_src=True)
+        ok = pth is None
+    if ok:
+        # nothing may overwrite a LIKELY_TRASHED existence before that test: the only earlier store allowed is the UNKNOWN arm
+        stores = [n for n in gn.nodes if _assign(n, "%s[%s].exists = $V" % (ent, side))]
+        early = []
+        for st_ in stores:
+            if gn.reach([st_.id], lambda n: n in lt, follow=NORMAL) is not None and not exists_in(ctx.facts(ni).facts(st_), "%s[%s].exists" % (ent, side), {"UNKNOWN"}, pol=True):
+                early.append(st_)
+        if early:
+            ok = False
+    rep.check(rid, "no_info|tombstone", ni, ok, "LIKELY_TRASHED + no info -> TRASHED on every path", "a tombstoned id that is gone is not confirmed as TRASHED for every provider style (it becomes MISSING: the deleted file is resurrected)")
+    ul = p.func("SyncState.unconditionally_get_latest")
+    gu = ctx.cfg(ul)
+    nic = [n for n in gu.nodes if node_has_call(n, "self.unconditionally_get_no_info($$$)")]
+    ok = bool(nic) and all(("info", False) in ctx.facts(ul).facts(n) for n in nic)
+    ex = [n for n in gu.nodes if _assign(n, "$E[$S].exists = EXISTS")]
+    pth = gu.reach([n.id for n in nic], lambda n: n in ex, follow=NORMAL) if nic else None
+    rep.check(rid, "get_latest|no-info-returns", ul, ok and pth is None, "no info -> no_info arm, then return", "after the no-information arm the entry can still be marked EXISTS",
+              witness=describe_path(pth) if pth else None)
+
+
 def run(ctx: Ctx, rep: Report, tier: str):
     p = ctx.prog
     rep.rule("C14.W1", "SyncManager.pre_sync reaches a falsy return only through sync.get_latest(); its other returns are truthy constants; "
@@ -71,37 +115,7 @@ def run(ctx: Ctx, rep: Report, tier: str):
     ups = [c for c in ctx.calls(pe, "update") if pat.match("self.state.update($$$)", c) is not None]
     ok = bool(ups) and all(("event.oid is None", False) in ctx.facts_at(pe, c) for c in ups)
     rep.check("C14.W3", "_process_event|id", pe, ok, "state.update only with an id", "an event without an id reaches state.update")
-    rep.rule("C14.W4", "no information about an object never makes it EXISTS: unconditionally_get_no_info stores only TRASHED / MISSING, ends with a "
-             "LIKELY_TRASHED entry tombstoned (TRASHED) for every provider style, and unconditionally_get_latest returns right after it", expect_min=3)
-    ni = p.func("SyncState.unconditionally_get_no_info")
-    ent, side = ni.params()[1:3]
-    vals = set()
-    for n in ctx.own_nodes(ni):
-        if isinstance(n, ast.Assign) and pat.match("%s[%s].exists" % (ent, side), n.targets[0]) is not None:
-            vals |= {x.id for x in ast.walk(n.value) if isinstance(x, ast.Name) and x.id.isupper()}
-    rep.check("C14.W4", "no_info|values", ni, vals and vals <= {"TRASHED", "MISSING"}, "stores %s" % sorted(vals), "the no-information arm can store %s" % sorted(vals - {"TRASHED", "MISSING"}))
-    gn = ctx.cfg(ni)
-    lt = [n for n in gn.nodes if n.kind == "test" and pat.match("%s[%s].exists == LIKELY_TRASHED" % (ent, side), n.ast) is not None]
-    ok = bool(lt)
-    if ok:
-        starts = [b for t in lt for (b, l) in gn.succ[t.id] if l == "T"]
-        follow_if = [n for n in gn.nodes if n.kind == "test" and n not in lt]
-        first_after = None
-        pth = gn.reach(starts, lambda n: n in follow_if or n is gn.exit, avoid=lambda n: _assign(n, "%s[%s].exists = TRASHED" % (ent, side)), follow=NORMAL, include_src=True)
-        # tests inside the LIKELY_TRASHED arm itself (the oid_is_path log branch) are allowed to be crossed
-        inner = {id(x) for t in lt for x in ast.walk(t.ast)}
-        arm_tests = [n for n in follow_if if any(isinstance(i, ast.If) and i.test is t.ast and any(x is n.ast for b in i.body for x in ast.walk(b)) for t in lt for i in ctx.own_nodes(ni) if isinstance(i, ast.If))]
-        pth = gn.reach(starts, lambda n: (n in follow_if and n not in arm_tests) or n is gn.exit, avoid=lambda n: _assign(n, "%s[%s].exists = TRASHED" % (ent, side)), follow=NORMAL, include_src=True)
-        ok = pth is None
-    rep.check("C14.W4", "no_info|tombstone", ni, ok, "LIKELY_TRASHED + no info -> TRASHED on every path", "a tombstoned id that is gone is not confirmed as TRASHED for every provider style (it becomes MISSING: the deleted file is resurrected)")
-    ul = p.func("SyncState.unconditionally_get_latest")
-    gu = ctx.cfg(ul)
-    nic = [n for n in gu.nodes if node_has_call(n, "self.unconditionally_get_no_info($$$)")]
-    ok = bool(nic) and all(("info", False) in ctx.facts(ul).facts(n) for n in nic)
-    ex = [n for n in gu.nodes if _assign(n, "$E[$S].exists = EXISTS")]
-    pth = gu.reach([n.id for n in nic], lambda n: n in ex, follow=NORMAL) if nic else None
-    rep.check("C14.W4", "get_latest|no-info-returns", ul, ok and pth is None, "no info -> no_info arm, then return", "after the no-information arm the entry can still be marked EXISTS",
-              witness=describe_path(pth) if pth else None)
+    w4(ctx, rep)
     rep.rule("C14.W5", "_last_gotten is written only by get_latest, mark_dirty, the SideState constructor and update_entry under `accurate`", expect_min=4)
     allowed = {"SyncEntry.get_latest", "SyncEntry.mark_dirty", "SideState.__init__", "SyncState.update_entry"}
     k = 0
